@@ -7,6 +7,7 @@ import (
 	"encoding/binary"
 	"fmt"
 	"net/netip"
+	"strings"
 
 	"github.com/daeuniverse/dae/common/consts"
 	"github.com/daeuniverse/dae/component/routing"
@@ -52,28 +53,69 @@ var (
 type ruleProgram struct {
 	name string
 	text string
+	hi   uint8 // id of the high-numbered group the program routes to (0: none)
 	v    *control.VerifRouting
 	kern [][]byte
 }
 
-func confText(body string) string {
-	return "global{}\ngroup{ g1{policy:min} g2{policy:min} }\nrouting{\n" + body + "\n}\n"
+// Outbound ids are positional (consts.OutboundUserDefinedMin + index in the group list): the list is filled up so that
+// the groups h43, h45 and h251 get exactly those ids (the connectivity map has 6 slots per outbound id, 0..255).
+var highGroups = []uint8{43, 45, 251}
+
+func groupName(id uint8) string {
+	switch id {
+	case groupG1:
+		return "g1"
+	case groupG2:
+		return "g2"
+	}
+	for _, h := range highGroups {
+		if id == h {
+			return fmt.Sprintf("h%d", h)
+		}
+	}
+	return fmt.Sprintf("f%d", id)
 }
 
-var programTexts = []struct{ name, body string }{
-	{"direct", "domain(suffix: d.example) -> g1\nfallback: direct"},
-	{"proxy", "domain(suffix: d.example) -> g2\nfallback: g1"},
-	{"block", "domain(suffix: d.example) -> direct\nfallback: block"},
-	{"dmark", "domain(suffix: d.example) -> block\nfallback: direct(mark: 0x800)"},
-	{"pmust", "domain(suffix: d.example) -> direct\nfallback: g1(must)"},
-	{"mustrules", "l4proto(udp) -> must_rules\ndomain(suffix: d.example) -> g1\nfallback: direct"},
-	{"pmark", "pname(curl) -> g2(mark: 0x66)\ndomain(suffix: d.example) -> block\nfallback: g1(mark: 0x55)"},
+func allGroups() []string {
+	var g []string
+	for id := int(consts.OutboundUserDefinedMin); id <= int(consts.OutboundUserDefinedMax); id++ {
+		g = append(g, groupName(uint8(id)))
+	}
+	return g
+}
+
+func confText(body string) string {
+	var b strings.Builder
+	b.WriteString("global{}\ngroup{\n")
+	for _, g := range allGroups() {
+		b.WriteString(" " + g + "{policy:min}\n")
+	}
+	b.WriteString("}\nrouting{\n" + body + "\n}\n")
+	return b.String()
+}
+
+var programTexts = []struct {
+	name, body string
+	hi         uint8
+}{
+	{"direct", "domain(suffix: d.example) -> g1\nfallback: direct", 0},
+	{"proxy", "domain(suffix: d.example) -> g2\nfallback: g1", 0},
+	{"block", "domain(suffix: d.example) -> direct\nfallback: block", 0},
+	{"dmark", "domain(suffix: d.example) -> block\nfallback: direct(mark: 0x800)", 0},
+	{"pmust", "domain(suffix: d.example) -> direct\nfallback: g1(must)", 0},
+	{"mustrules", "l4proto(udp) -> must_rules\ndomain(suffix: d.example) -> g1\nfallback: direct", 0},
+	{"pmark", "pname(curl) -> g2(mark: 0x66)\ndomain(suffix: d.example) -> block\nfallback: g1(mark: 0x55)", 0},
+	// proxy groups with high outbound ids (the health-bit slot of id o is o*6+domain*2+family: beyond 255 from id 43 on)
+	{"hi43", "domain(suffix: d.example) -> g1\nfallback: h43", 43},
+	{"hi45", "domain(suffix: d.example) -> direct\nfallback: h45", 45},
+	{"hi251", "domain(suffix: d.example) -> g1\nfallback: h251(mark: 0x251)", 251},
 }
 
 func compilePrograms() ([]*ruleProgram, error) {
 	var out []*ruleProgram
 	for _, p := range programTexts {
-		v, err := control.VerifCompileRouting(confText(p.body), []string{"g1", "g2"}, []routing.RulesOptimizer{&routing.AliasOptimizer{}})
+		v, err := control.VerifCompileRouting(confText(p.body), allGroups(), []routing.RulesOptimizer{&routing.AliasOptimizer{}})
 		if err != nil {
 			return nil, fmt.Errorf("program %q: %w", p.name, err)
 		}
@@ -83,7 +125,10 @@ func compilePrograms() ([]*ruleProgram, error) {
 		if v.Name2Id["g1"] != groupG1 || v.Name2Id["g2"] != groupG2 {
 			return nil, fmt.Errorf("group ids changed: %v", v.Name2Id)
 		}
-		out = append(out, &ruleProgram{name: p.name, text: p.body, v: v, kern: v.KernRuleBytes()})
+		if p.hi != 0 && v.Name2Id[groupName(p.hi)] != p.hi {
+			return nil, fmt.Errorf("group %s did not get id %d: %v", groupName(p.hi), p.hi, v.Name2Id[groupName(p.hi)])
+		}
+		out = append(out, &ruleProgram{name: p.name, text: p.body, hi: p.hi, v: v, kern: v.KernRuleBytes()})
 	}
 	return out, nil
 }
@@ -115,6 +160,7 @@ func addrsFor(v6 bool) addrSet {
 
 type kenv struct {
 	k     *kc
+	mir   *control.VerifC03Mirror // the control plane's view: real BPF maps + the real RetrieveRoutingResult
 	progs []*ruleProgram
 	base  uint32 // snapshot: boot state of the scenario
 }
@@ -179,15 +225,16 @@ func (e *kenv) boot(sc *scenario) {
 	})
 	t4, u, t6 := control.VerifC03ListenKeys()
 	s.mapUpdate("listen_socket_map", [][]byte{le32(t4), le32(u), le32(t6)}, [][]byte{le64(sockTCP4), le64(sockUDP), le64(sockTCP6)})
-	// health bits: the control plane initialises every outbound (direct, block, groups) as alive
-	for ob := 0; ob < 4; ob++ {
-		for _, udp := range []bool{false, true} {
-			for _, v6 := range []bool{false, true} {
-				s.setAlive(uint8(ob), udp, v6, true)
-			}
+	// health bits: at start-up the control plane reports every outbound (direct, block, every group) alive for every
+	// (protocol, family), each through outboundConnectivityMapKey
+	var hk, hv [][]byte
+	for ob := 0; ob <= int(consts.OutboundUserDefinedMax); ob++ {
+		for _, v6 := range []bool{false, true} {
+			hk = append(hk, control.VerifC03ConnectivityKey(uint8(ob), false, v6), control.VerifC03ConnectivityKey(uint8(ob), true, v6), control.VerifC03ConnectivityKeyDns(uint8(ob), v6))
+			hv = append(hv, le32(1), le32(1), le32(1))
 		}
-		s.mapUpdate("outbound_connectivity_map", [][]byte{control.VerifC03ConnectivityKeyDns(uint8(ob), false), control.VerifC03ConnectivityKeyDns(uint8(ob), true)}, [][]byte{le32(1), le32(1)})
 	}
+	s.mapUpdate("outbound_connectivity_map", hk, hv)
 	s.setTime(baseTimeNs)
 	// cookie -> (pid, pname) through the real cgroup program
 	s.setTask(uint64(appPid)<<32|appPid, appComm, "/usr/bin/curl https://x")
